@@ -204,9 +204,12 @@ class SympyBackend:
             )
 
         sympy_func = _sympify_function(func_name, function)
+        # NOTE: with sympy's default `simultaneous=True`, a call whose rebuilt form equals one of its original
+        # arguments is skipped, so f(f(c)) keeps its outer call whenever the implementation maps c to itself.
         return expr.replace(
             lambda pattern: isinstance(pattern, SYMPY_USER_FUNCTION_TYPES) and str(type(pattern)) == func_name,
             lambda match: sympy_func(*match.args),
+            simultaneous=False,
         )
 
     def is_constant_int(self, expr: TExpr[Expr]):
